@@ -517,3 +517,30 @@ Proof.
   - intros l s x HI. apply call_step; assumption.
   - apply call_inv_init. exact Hwf.
 Qed.
+
+(* ---------------------------------------------------------------- history: the code before the fix *)
+(* parseFunctionArgs returns the text of an identifier it cannot resolve; before the fix the analytic engine fed
+   that text (the column's NAME) to the state machine when the column was missing from the row *)
+Definition an_eval_asis (r : arow) (e : aexp) : aval :=
+  match e with
+  | AEField n => match alookup n r with Some v => v | None => AVStr n end
+  | _ => an_eval r e
+  end.
+
+Definition an_call_apply_asis (c : acall) (st : acstate) (r : arow) : acstate * ares :=
+  let args := map (an_eval_asis r) (ca_args c) in
+  match ca_fn c, st with
+  | AFLatest, ASLatest x => let '(x', v) := an_latest_apply x args in (ASLatest x', ARV v)
+  | AFAcc k, ASAcc s => let '(s', v) := an_acc_apply k s args in (ASAcc s', v)
+  | _, _ => (st, ARV AVNull)
+  end.
+
+Definition colv : bytes := [118]%N.   (* "v" *)
+
+Lemma missing_arg_asis_refuted :
+  let c := {| ca_fn := AFAcc AKCount; ca_args := [AEField colv] |} in
+  let h := [[(colv, AVInt 5)]; []] in      (* the second row has no column v *)
+  sm_run (an_call_apply_asis c) (an_new_state (ca_fn c)) h = [ARV (AVInt 1); ARV (AVInt 2)] /\
+  map_prefix (an_call_spec_rows c) h = [ARV (AVInt 1); ARV (AVInt 1)] /\
+  sm_run (an_call_apply c) (an_new_state (ca_fn c)) h = [ARV (AVInt 1); ARV (AVInt 1)].
+Proof. vm_compute. repeat split; reflexivity. Qed.
